@@ -144,7 +144,13 @@ def handle (st : S) : List String → S × String
     | none => (st, "bad-op")
     | some kind =>
       let (r, s') := send T st.cfg st.conn kind (ui == "1")
-      let (ph, v) := specStep st.cfg.preEstablished st.phase (evOfSend kind)
+      -- when the state machine accepts but protection fails afterwards (counter space exhausted, unusable keys)
+      -- the history has left what C03 speaks about
+      let (ph0, v0) := specStep st.cfg.preEstablished st.phase (evOfSend kind)
+      let protFailed : Bool := match r with
+        | .error e => e != .protocol && e != .preEstablished
+        | .ok _ => false
+      let (ph, v) := if protFailed then (none, "na") else (ph0, v0)
       ({ st with conn := s', phase := ph },
         v ++ " | " ++ (match r with | .ok x => "ok " ++ showSent x | .error e => "err " ++ e.name) ++ " | " ++ showObs s')
   | "recv" :: rest =>
